@@ -557,6 +557,8 @@ fn sim_popen(e: SimExec) -> Result<SimPopen, PopenError> {
     let cwd_ok = e.cwd.as_ref().map(|c| c.is_dir()).unwrap_or(true);
     // read a file given as stdin (detached test cases) before entering the world
     let mut file_data: Option<Vec<u8>> = None;
+    let mut file_handle: Option<File> = None;
+    let mut file_pos: u64 = 0;
     let stdin_kind = match &e.stdin {
         None | Some(SimIn::Redir(Redirection::None)) => "inherit",
         Some(SimIn::Null) => "null",
@@ -565,6 +567,10 @@ fn sim_popen(e: SimExec) -> Result<SimPopen, PopenError> {
         Some(SimIn::Redir(Redirection::File(f))) => {
             let mut v = vec![];
             let mut fr: &File = f;
+            // (a shell reads a script that is a regular file piece by piece, as it goes along:
+            // the child gets the file itself, at the position it was handed over in)
+            file_pos = std::io::Seek::stream_position(&mut fr).unwrap_or(0);
+            file_handle = f.try_clone().ok();
             let _ = fr.read_to_end(&mut v);
             file_data = Some(v);
             "file"
@@ -572,6 +578,8 @@ fn sim_popen(e: SimExec) -> Result<SimPopen, PopenError> {
         Some(SimIn::Redir(Redirection::RcFile(f))) => {
             let mut v = vec![];
             let mut fr: &File = f;
+            file_pos = std::io::Seek::stream_position(&mut fr).unwrap_or(0);
+            file_handle = f.try_clone().ok();
             let _ = fr.read_to_end(&mut v);
             file_data = Some(v);
             "file"
@@ -604,7 +612,10 @@ fn sim_popen(e: SimExec) -> Result<SimPopen, PopenError> {
         let pid = w.procs.len() as u32;
         let stdin_src = match stdin_kind {
             "pipe" => StdinSrc::Pipe(w.new_pipe(pid, 0)),
-            "file" => StdinSrc::Data(VecDeque::from(file_data.clone().unwrap_or_default())),
+            "file" => match file_handle.take() {
+                Some(file) => StdinSrc::File { file, offset: file_pos },
+                None => StdinSrc::Data(VecDeque::from(file_data.clone().unwrap_or_default())),
+            },
             _ => StdinSrc::Closed,
         };
         let parent_stdin = if let StdinSrc::Pipe(p) = &stdin_src {
